@@ -73,7 +73,10 @@ func VerifC09Redeliver() {
 	for id, st := range state {
 		if st != 0 {
 			_, ok := cl.State.Inflight.Get(id)
-			vAssert("kf-message-released-from-flow-control-queue-keeps-its-inflight-record", ok || int(R) >= n)
+			// recorded class: only messages that had been held back by flow control (published when the quota was
+			// used up: the (R+1)th and later ones of the initial burst) and were released by the deferred-send path
+			held := int(pay[id]) > int(R)
+			vAssert("kf-message-released-from-flow-control-queue-keeps-its-inflight-record", ok || !held)
 			vAssert("written-unacknowledged-message-has-inflight-record", ok)
 		}
 	}
